@@ -37,6 +37,8 @@ var c13Decls = []c13Decl{
 	{"local-alias-of-a-commented-local", "local base = 10 -- BASEDOC\n", "local v = base", "v", "print(v)", true, []string{"v"}, false},
 	{"global-alias-of-a-commented-local", "local base = 10 -- BASEDOC\n", "gl = base", "gl", "print(gl)", false, []string{"gl"}, false},
 	// a member of a table constructor that a function returns (use: lines that close the constructor, then the hovered use)
+	// the use sits on the closing line of the block that declares the (shadowing) local
+	{"shadowing-local-used-on-the-closing-line-of-its-block", "local v = 0 -- OUTERDOC\ndo\n", "local v = 1", "v", "print(v) end", true, []string{"v", "1"}, false},
 	{"member-of-a-returned-table", "local function make()\n  return {\n", "    size = 1,", "size", "  }\nend\nlocal obj = make()\nprint(obj.size)", false, []string{"size", "1"}, false},
 }
 
@@ -329,7 +331,7 @@ func init() {
 	core.Register(&core.Check{
 		ID:        "C13",
 		Technique: "bounded-exhaustive enumeration (declaration forms x comment placements x all comment strings up to a length over an 8-symbol alphabet of ASCII, 2-, 3- and 4-byte characters) on the real server against the documented attachment rule",
-		Rule: "13 declaration forms (a member of a table constructor returned by a function, functions with a vararg parameter list, aliases of a commented variable included) x 7 comment placements (none, trailing, one line above, two-line block, --- line, block separated by a blank line, trailing on a multi-name local) x every comment text of <=2 (quick) / <=3 (thorough) symbols over {a, space, é, я, 中, 😀, -, *}; hover at the declaration and at a use. " +
+		Rule: "14 declaration forms (a shadowing local used on the closing line of its block, a member of a table constructor returned by a function, functions with a vararg parameter list, aliases of a commented variable included) x 7 comment placements (none, trailing, one line above, two-line block, --- line, block separated by a blank line, trailing on a multi-name local) x every comment text of <=2 (quick) / <=3 (thorough) symbols over {a, space, é, я, 中, 😀, -, *}; hover at the declaration and at a use. " +
 			"The label must contain the identifier and what the declaration says (local marker, literal, parameter names in order); the documentation must be the attached comment (trailing, else block directly above; never a block separated by a blank line), byte-identical after the clean-up of leading/trailing dashes, stars and blanks. " +
 			"states = hovers judged; non-trivial = cases whose comment contains non-ASCII characters",
 		Assumptions: []string{"comments that are empty after clean-up, that start with an extra dash, or contain '[' are not judged for documentation", "documentation lines are compared after trimming blanks, dashes and stars at both ends"},
